@@ -20,6 +20,8 @@ import copy
 import random
 import numpy as np
 
+SQ3 = 3 ** 0.5
+
 from .. import tlc, ftable
 from ..common import Report, MachineryError, seed, quiet
 from . import _symcommon as sc
@@ -37,7 +39,13 @@ PROPS = {
                      "Dwann, and the s/p/d matrices of rational (integer-quaternion) rotations that are not crystallographic. Floating "
                      "point only: sp/sp2/sp3/sp3d2 hybrids against M D_spec M^T (1e-10), f shell (orthogonality, composition, character, "
                      "parity), random O(3) rotations, rotations closer than the rotator's cache tolerance, unitarity of D_wann, the "
-                     "hexagonal cell (tolerance 1e-9, observed 1e-15).",
+                     "hexagonal cell (tolerance 1e-9, observed 1e-15). Local frames are an input class throughout: for frames b from the "
+                     "group (exact, OrbRep!RepFrame) and generic ones (numeric) rotator(shell, R, b1, b2) = D(b2 R b1^T) for every shell and "
+                     "hybrid, composites 's;p', 'p;d', 'pz;s', 's;p;d' equal the block matrix of their parts with and without frames, the "
+                     "composition law holds in a common frame; Dwann with a common non-identity frame, site-dependent frames and "
+                     "composite orbitals (explicit basis_list on the specification's structures; frames built by Projection from "
+                     "xaxis= / rotate_basis= / do_not_split_projections on the hexagonal cell): unitarity, centre map, block = phase x "
+                     "D_spec of the rotation in the local frames.",
                 note="exact in TLA+: group axioms, tables, s/p/d matrices, hybrids that are sub-blocks, domain predicate, site maps/shifts. "
                      "numeric (inputs and index triples chosen by the spec): f shell and sqrt(2)-hybrids, random rotations, hexagonal "
                      "cell (reported as numeric_only). A hybrid whose span is not invariant under the rotation is outside the "
@@ -557,8 +565,65 @@ def hexagonal_cell(rep, d6h, shells, thorough):
                         if dv > TOL:
                             rep.violation(f"Dwann:block:{sh}:hexagonal", dict(detail, isym=isym, rotation_cart=np.asarray(symop.rotation_cart).tolist(),
                                                                               expected_up_to_phase=e.tolist(), got=np.asarray(blk).tolist(), deviation=dv))
-    if counts["dwann"] == 0 and not rep.violations:
-        raise MachineryError("no Dwann case on the hexagonal cell")
+    # local frames built by Projection (projections.py): a common non-identity frame (xaxis at 60 degrees, rotate_basis=False),
+    # site-dependent frames (rotate_basis=True), composite orbitals kept in one block (do_not_split_projections)
+    from wannierberri.symmetry.projections import Projection
+    counts["projection_frames"] = 0
+    xax = [0.5, SQ3 / 2, 0.0]
+    for pos in (np.zeros((1, 3)), np.array([[1 / 3, 2 / 3, 0.25]])):
+        for orbital, kw, label in (("p", dict(xaxis=xax, rotate_basis=False), "common"), ("pz;s", dict(xaxis=xax, rotate_basis=False, do_not_split_projections=True), "common composite"),
+                                   ("sp2", dict(rotate_basis=True), "site"), ("s;p", dict(xaxis=xax, rotate_basis=True, do_not_split_projections=True), "site composite")):
+            if not all(x in use for x in parts_of(orbital)):
+                continue
+            detail = dict(cell="hexagonal", positions=pos.tolist(), orbital=orbital, frames=label)
+            with quiet():
+                good, proj = sc.guarded(rep, "Projection", detail, Projection, position_num=pos, orbital=orbital, spacegroup=sg, **kw)
+            ok, pb = sc.private(rep, "Projection.positions/basis_list", lambda: (np.asarray(proj.positions, dtype=float).reshape(-1, 3), [np.asarray(b, dtype=float) for b in proj.basis_list])) if good else (False, None)
+            if not ok:
+                continue
+            ppos, frames = pb
+            with quiet():
+                good, dw = sc.guarded(rep, "Dwann", detail, Dwann, spacegroup=sg, positions=ppos, orbital=orbital, orbitalrotator=new_rotator(), basis_list=frames, spinor=False)
+            ok, orb = sc.private(rep, "Dwann.orbit", lambda: np.array([np.asarray(p, dtype=float) for p in dw.orbit])) if good else (False, None)
+            if not ok or len(orb) != len(ppos) or np.abs((orb - ppos + 0.5) % 1 - 0.5).max() > 1e-8:
+                continue
+            npnt, norb = len(orb), num_orbitals(orbital)
+            for isym, symop in enumerate(sg.symmetries):
+                good, Dk = sc.guarded(rep, "Dwann.get_on_points", dict(detail, isym=isym), dw.get_on_points, kpt, symop.transform_k(kpt), isym)
+                if not good:
+                    continue
+                Dk = np.asarray(Dk)
+                rep.case(("dwann_hex_frames", orbital, label, len(orb), isym))
+                counts["projection_frames"] += 1
+                dv = float(np.abs(Dk @ Dk.conj().T - np.eye(len(Dk))).max()) if Dk.shape == (npnt * norb,) * 2 else float("inf")
+                maxdev = max(maxdev, dv)
+                if dv > TOL:
+                    rep.violation(f"Dwann:unitary:{orbital}:hexagonal", dict(detail, isym=isym, deviation=dv))
+                    continue
+                blocks = _blocks_of(Dk, npnt, norb)
+                Rc = np.asarray(symop.rotation_cart, dtype=float)
+                for a in range(npnt):
+                    b = blocks[a]
+                    if b is None:
+                        rep.violation("Dwann:centre_map:hexagonal", dict(detail, isym=isym, site=a, got_block=b))
+                        continue
+                    M = frames[b] @ Rc @ frames[a].T
+                    d = [float(np.abs(M - e).max()) for e in d6h["elems"]]
+                    i = int(np.argmin(d))
+                    if d[i] > 1e-8:
+                        raise MachineryError("a local frame built by Projection on the hexagonal cell is not an element of the specification's D6h")
+                    if not all(i in d6h["pres"][x] for x in parts_of(orbital)):
+                        continue
+                    e = expected_any(d6h, orbital, i)
+                    blk = Dk[b * norb:(b + 1) * norb, a * norb:(a + 1) * norb]
+                    z = np.vdot(e, blk) / np.vdot(e, e)
+                    dv = max(float(np.abs(blk - z * e).max()), abs(abs(z) - 1))
+                    maxdev = max(maxdev, dv)
+                    if dv > TOL:
+                        rep.violation(f"Dwann:block:{orbital}:hexagonal", dict(detail, isym=isym, site=a, local_rotation=M.tolist(), expected_up_to_phase=e.tolist(),
+                                                                               got=np.asarray(blk).tolist(), deviation=dv))
+    if (counts["dwann"] == 0 or counts["projection_frames"] == 0) and not rep.violations and "skipped_private" not in rep.parts:
+        raise MachineryError(f"no Dwann case on the hexagonal cell: {counts}")
     rep.part("hexagonal_cell_numeric_only", counts=counts, max_deviation=maxdev)
 
 
